@@ -485,7 +485,9 @@ def _results(run, P):
                         return True
             return False
         if not cons:
-            probs.append("no UxDataArray constructed")
+            from ..loader import FuncInfo
+            via = [x for r in ast.walk(g.node) if isinstance(r, ast.Return) and r.value is not None for x in ast.walk(r.value) if isinstance(x, ast.Call) and isinstance(P.resolve_expr(g.module, x.func, g), FuncInfo)]
+            (unknown if via else probs).append("no UxDataArray constructed in this function" + (f" (the result is built by {norm(via[0].func)})" if via else ""))
         else:
             kwd = {k.arg: k.value for k in cons[0].keywords}
             kw = {k_: norm(v_) for k_, v_ in kwd.items()}
@@ -526,7 +528,7 @@ def _results(run, P):
         elif unknown:
             run.incomplete("IDX/remap-result", c, where(g), "; ".join(unknown))
         else:
-            run.holds("IDX/remap-result", c, where(g, cons[0]), "dims = source dims with the last replaced by the destination dimension; attached to the destination grid; every return fed by the low-level remap")
+            run.holds("IDX/remap-result", c, where(g, cons[0]) if cons else where(g), "dims = source dims with the last replaced by the destination dimension; attached to the destination grid; every return fed by the low-level remap")
     for key in (f"{NN}:_nearest_neighbor_uxds", f"{IDW}:_inverse_distance_weighted_remap_uxds"):
         g = P.try_func(key)
         if g is None:
